@@ -28,7 +28,7 @@ REQUIRED_COUNTERS = ["ref.optimal", "ref.infeasible", "ref.unbounded", "agree.op
 
 def plan(tier):
     if tier == "thorough":
-        return [{"variant": "plain", "workers": 16, "cases": 2200}]
+        return [{"variant": "plain", "workers": 16, "cases": 6000}]
     return [{"variant": "plain", "workers": 8, "cases": 130}]
 
 
@@ -404,15 +404,22 @@ def run(ctx):
             vs = p.variables()
             saved = [v.value for v in vs]
             bad = False
-            for rc in rcons:
+            extra = []
+            try:
+                if not p.objective._isaffine():
+                    extra = [p.objective <= 0.0]       # the objective's max terms are linearised by the same routine
+            except Exception:
+                pass
+            for rc in list(rcons) + extra:
                 if rc.type() != "<" or rc._f._isaffine():
                     continue
                 ineqs, aux, _ = rc._aslinearineq()
                 if aux:
                     continue
-                for _ in range(3):
+                for it in range(16):
+                    sc = (5.0, 40.0)[it % 2]
                     for v in vs:
-                        v.value = matrix([rr.uniform(-5, 5) for _ in range(len(v))], (len(v), 1))
+                        v.value = matrix([rr.uniform(-sc, sc) for _ in range(len(v))], (len(v), 1))
                     want = np.array(list(rc.value()))
                     got = np.full(len(rc), -np.inf)
                     for i in ineqs:
@@ -438,7 +445,7 @@ def run(ctx):
         if pl is not None and pl[0] is not None:
             if pl[0] != ref["status"] or (pl[1] is not None and abs(pl[1] - ref["p"]) > 1e-6 * max(1.0, abs(ref["p"]))):
                 return "solve:matrix-form-conversion-changes-the-problem"
-        if "multiplier" in generic or "certificate" in generic:
+        if "multiplier" in generic or "infeasibility-certificate" in generic:
             if pieces_differ(rcons):
                 return "solve:multiplier-sum-broadcasts-pieces-of-different-length"
         return generic
@@ -518,7 +525,7 @@ def run(ctx):
                 if gap > 2e-5:
                     c.fail(mech(p, rcons, ref, "solve:multipliers-not-dual-optimal"),
                            "%s: min over the box of the Lagrangian at the returned multipliers = %r < p* = %r"
-                           % (tag, lb["value"], ref["p"]), multipliers=[list(m) for m in mult])
+                           % (tag, lb["value"], ref["p"]), multipliers=[list(m) for m in mult], minimiser=lb.get("x"))
         elif ref["status"] == "infeasible":
             c.require(x is None and all(rv[v.idx].value is None for v in vars_), "solve:primal-infeasible-but-variable-not-None",
                       "status 'primal infeasible': variable values must be None")
@@ -544,7 +551,7 @@ def run(ctx):
                         if not val > 1e-7 * max(1.0, msc):
                             c.fail(mech(p, rcons, ref, "solve:infeasibility-certificate-invalid"),
                                    "sum_i z_i' f_i(x) must be positive for all x; its minimum over |x| <= %g is %r" % (4 * R, lb["value"]),
-                                   multipliers=[list(m) for m in mult])
+                                   multipliers=[list(m) for m in mult], minimiser=lb.get("x"))
         else:
             c.require(all(m is None for m in mult), "solve:dual-infeasible-but-multiplier-not-None",
                       "status 'dual infeasible': multipliers must be None")
@@ -564,14 +571,17 @@ def run(ctx):
                                 bad = "objective changes by %.3g per unit step at t=%g" % (do, tt)
                             for c_ in cons:
                                 dh = (c_["tree"].fn(pt) - c_["tree"].fn(zero)) / (tt * nd)
-                                sc = max(1.0, float(np.max(c_["tree"].mg(pt))) / (tt * nd))
+                                ones = {i: np.full(len(x[i]), tt * nd) for i in x}      # scale: sum of |coefficients|
+                                sc = max(1.0, float(np.max(c_["tree"].mg(ones))) / (tt * nd))
                                 v_ = float(np.max(dh if c_["typ"] == "<" else np.abs(dh))) / sc
                                 ctx.maxobs("certificate.dual.growth", v_)
                                 if v_ > 1e-4:
                                     bad = "constraint grows by %.3g per unit step at t=%g" % (v_, tt)
                     else:
                         bad = "zero direction"
-                    c.require(bad is None, "solve:unboundedness-certificate-invalid", str(bad), direction=x)
+                    c.check()
+                    if bad is not None:
+                        c.fail(mech(p, rcons, ref, "solve:unboundedness-certificate-invalid"), str(bad), direction=x)
 
     def one(c):
         rng = c.rng
